@@ -169,7 +169,11 @@ def run_layer_g(scratch):
             st = "failed"
         elif not ok or not all(ok):
             st = "undecided"
-        res["functions"][name] = {"status": st, "reason": "\n".join(h[2] for h in hits[:2]), "time_ms": sum(f.get("time", 0) for f in fb.get(name, []))}
+        import hashlib
+        src_of = {"g_parse_runs": ["min_key", "max_key", "value_ranges", "mode", "Mode"], "g_range_table": ["ofs_loop"]}.get(name, [])
+        body_hash = hashlib.sha1("|".join((slices.get(k, {}).get("raw") or "") for k in src_of).encode()).hexdigest() if src_of else None
+        res["functions"][name] = {"status": st, "reason": "\n".join(h[2] for h in hits[:2]), "time_ms": sum(f.get("time", 0) for f in fb.get(name, [])),
+                                  "kinds": sorted({layer_t.refutation_kind(h[1], h[2]) for h in hits}), "body_hash": body_hash}
     # a refutation outside the named functions (a lemma of the prelude) leaves everything undecided
     un = [r for r in refut if not any(a <= r[0] <= b for (a, b) in ranges.values())]
     if un:
